@@ -17,7 +17,7 @@ fn main() {
          (buffered build) a write that starts within 45 bytes of a full buffer and does not fit, or a sink that accepted a strict prefix \
          or returned Interrupted; (round trip) negative / 19+ digit / vector / tuple values. Distinct = distinct (profile, sub-check, case).",
     );
-    ctx.assume("strings are ASCII; the sink honours the Write contract (partial writes and Interrupted allowed, at most 3 Interrupted in a row)");
+    ctx.assume("strings are ASCII; the sink honours the Write contract (partial writes and Interrupted allowed - up to 5000 in a row - always followed by progress)");
     let buf_found = vcore::catch(discover_buf).unwrap_or(0);
     let buf = if buffered && buf_found >= 64 && buf_found <= (1 << 22) { buf_found } else { 1 << 16 };
     println!("writer buffer size: discovered first delivery = {} bytes (buffered build: {}), using {}", buf_found, buffered, buf);
@@ -31,5 +31,14 @@ fn main() {
     ctx.prop_split("roundtrip", "roundtrip-case", ctx.n(4_000, 100_000), ctx.parts(), rt_case(20).boxed(), run_roundtrip);
     ctx.replayer("macro-case", move |v| run_macros(&serde_json::from_value::<MacroCase>(v.clone()).expect("case"), buf));
     ctx.prop("output-macros", "macro-case", ctx.n(400, 10_000), macro_case(), move |c| run_macros(c, buf));
+    ctx.replayer("writer-many", |v| run_many_flushes(&serde_json::from_value::<ManyFlushes>(v.clone()).expect("case")));
+    ctx.exhaustive(
+        "many-flushes-on-one-writer",
+        "writer-many",
+        "65535 .. 140000 short writes on one writer with an explicit flush after every one / every second one",
+        false,
+        vec![ManyFlushes { n: 65_535, every: 1 }, ManyFlushes { n: 65_537, every: 1 }, ManyFlushes { n: 131_073, every: 1 }, ManyFlushes { n: 140_000, every: 2 }],
+        run_many_flushes,
+    );
     ctx.finish();
 }
